@@ -223,3 +223,12 @@ P["C14"] = {
     "assumptions": ["seed expansion (blake3 XOF + rejection sampling) is an input of the model: the expanded polynomial is taken from the implementation (its determinism is C16)",
                     "the NTT of the selected-terms format is the C09 model (tables rebuilt from the modulus)"],
 }
+
+P["C03"] = {
+    "lean_modules": ["Heathcliff.Props.C03"],
+    "level": "proof",
+    "runs": lambda tier, seed: [{"seed": seed}] if tier == "quick" else [{"seed": seed * 1000 + i} for i in range(4)],
+    "search": lambda tier, seed: [{"seed": seed * 7919}],
+    "rule": "CKKS programs (negate, add, sub, multiply, square, multiply/add/sub_plain, relinearize, rescale) over a pool of ciphertexts, N = 4..16 (thorough 32), chains of 2..6 primes of 30..59 bits, scales 2^20..2^28 times plaintext scales 2^10..2^20, complex slot vectors incl. purely imaginary and negative values, sizes 2..4. Every step dumps operands and result: the driver recomputes the result ciphertext bit for bit with the Lean model (add/sub/negate/multiply/plain ops/rescale) and checks the exact relation between the big-integer phases (sum / difference / negacyclic product exactly mod Q; relinearize within the key-switch bound; rescale within the rounding bound) and the IEEE scale bit pattern; decoded slots are compared with the complex shadow program; level mismatch, scale mismatch and scale overflow must be refused (the overflow rule is compared with the model at the four boundary exponents).",
+    "assumptions": ["Lean Float * and / are IEEE binary64 (same as Rust f64)", "the decoded-slot comparison uses the library decoder with tolerance max|v|/512 + 1/512 (a labelled test); the exact statement is the integer-level phase relation"],
+}
